@@ -30,6 +30,10 @@ def next_channel_sites : List (String × Bool) := [
   ("_parse_channel_open", true)
 ]
 
+/-- every `self._channels.delete(…)` in transport.py: (method, ok = inside _unlink_channel or guarded by
+    `if chanid in self.channel_events` — an open that is still pending) -/
+def mapDeletes : List (String × Bool) := [("_unlink_channel", true), ("_parse_channel_open_failure", true)]
+
 /-- the methods of class Transport that assign `self._channel_counter` -/
 def counter_writers : List String := ["__init__", "_next_channel"]
 
